@@ -213,9 +213,11 @@ class FakeEvent:
 
     def __init__(self):
         self.flag = False
+        self.woken = False      # set() happened since a harness last cleared this mark (a waiter would have woken up)
 
     def set(self):
         self.flag = True
+        self.woken = True
 
     def clear(self):
         self.flag = False
